@@ -154,6 +154,7 @@ def hir_sites(root):
 # ---------------------------------------------------------------------------------------------
 # intervals
 
+CALLEE_RANGES = {}    # resolved callee -> result range (per run; filled on demand by Ctx.callee_result_range)
 YIELD_RANGE = {}      # iterator type path -> (lo, hi) of every value its next() yields; filled by the rule that proves it (C04 links C13)
 
 
@@ -227,6 +228,102 @@ class Ctx:
             return self._bind_yield(pat["pats"][1], ty[len(enum_pref):-1])
         if ty in YIELD_RANGE and pat.get("k") == "pbind" and "sub" not in pat:
             self.yielded[(pat["name"], pat.get("id"))] = YIELD_RANGE[ty]
+
+    def frames_of(self, node):
+        """Structural path conditions at a node of this body."""
+        got = hir.visit_with_conds(self.body["hir"], lambda x: x is node)
+        return got[0][1] if got else []
+
+    def mutable_range(self, key, depth=0):
+        """Range of a mutable integer local at every point: the join of its initialiser and of every value assigned to it, each taken
+        at its assignment (with the path conditions that hold there).  `x += e` / `x = x + e` with e >= 0 keeps the lower bound
+        (no wrap: the overflow site is decided separately) and is bounded above by the path conditions at the store."""
+        cache = self.__dict__.setdefault("_mut_ranges", {})
+        if key in cache:
+            return cache[key]
+        cache[key] = None           # recursion guard: a cycle between locals gives no information
+        if depth > 12:
+            return None
+        init = self.lets.get(key)
+        base = interval(init, self, {}, depth + 1, at=init if isinstance(init, dict) else None) if init is not None else None
+        if base is None:
+            return None
+        lo, hi = base
+        tr = None
+        for a in self.assign_nodes:
+            l = hir.simp(a["l"])
+            if not (l.get("k") == "local" and (l["name"], l.get("id")) == key):
+                continue
+            tr = self.type_range(l.get("ty")) or tr
+            frames = self.frames_of(a)
+            ref = Refinements(frames, self, a)
+            rhs = hir.simp(a["r"])
+            self_plus = None
+            if a.get("k") == "assignop" and a.get("op") == "AddAssign":
+                self_plus = rhs
+            elif a.get("k") == "assign" and rhs.get("k") == "bin" and rhs.get("op") == "Add" and "callee" not in rhs and \
+                    hir.simp(rhs["l"]).get("k") == "local" and (hir.simp(rhs["l"])["name"], hir.simp(rhs["l"]).get("id")) == key:
+                self_plus = rhs["r"]
+            if self_plus is not None:
+                inc = interval(self_plus, self, ref, depth + 1, at=a)
+                if inc is None or inc[0] < 0:
+                    return None
+                # upper bound: what the path conditions say about x at the store, plus the increment
+                cur = ref.get(hir.place_str(l), a) if hasattr(ref, "get") else None
+                if cur is None or tr is None:
+                    hi = max(hi, tr[1] if tr else hi)
+                else:
+                    hi = max(hi, min(cur[1], tr[1]) + inc[1])
+                continue
+            if a.get("k") != "assign":
+                return None
+            v = interval(rhs, self, ref, depth + 1, at=a)
+            if v is None:
+                return None
+            lo, hi = min(lo, v[0]), max(hi, v[1])
+        cache[key] = (lo, hi)
+        return cache[key]
+
+    def callee_result_range(self, call, depth=0):
+        """Range of the value a same-crate function returns: the join over its tail expression and `return`s, computed in the callee's
+        own context (nothing assumed about the arguments)."""
+        facts, crate = getattr(self, "facts", None), getattr(self, "crate", None)
+        cal = call.get("resolved") or call.get("callee") or ""
+        if facts is None or not cal.startswith(str(crate) + "::") or depth > 6:
+            return None
+        cache = CALLEE_RANGES
+        if cal in cache:
+            return cache[cal]
+        cache[cal] = None
+        try:
+            bs = facts.crate(crate)["_bodies"].get(cal, []) or [h for h in facts.crate(crate).get("helper_bodies", []) if h["path"] == cal]
+        except Exception:
+            return None
+        if len(bs) != 1 or "hir" not in bs[0] or bs[0].get("kind") not in ("Fn", "AssocFn"):
+            return None
+        b = bs[0]
+        cx2 = Ctx(b, self.consts, self.fn_tables, self.field_inv)
+        cx2.facts, cx2.crate = facts, crate
+        outs = []
+        body = hir.simp(b["hir"])
+        tail = body.get("expr") if body.get("k") == "block" else body
+        if tail is not None:
+            outs.append(tail)
+        for n in hir.walk(b["hir"]):
+            if n.get("k") == "ret" and "e" in n:
+                outs.append(n["e"])
+        if not outs:
+            return None
+        lo = hi = None
+        for o in outs:
+            o = hir.simp(o)
+            fr = cx2.frames_of(o) if isinstance(o, dict) else []
+            v = interval(o, cx2, Refinements(fr, cx2, o), depth + 1, at=o)
+            if v is None:
+                return None
+            lo, hi = (v[0], v[1]) if lo is None else (min(lo, v[0]), max(hi, v[1]))
+        cache[cal] = (lo, hi)
+        return cache[cal]
 
     def inside(self, node, container):
         return self.order[id(container)] <= self.order[id(node)] <= self.last[id(container)]
@@ -323,6 +420,10 @@ def _interval(e, cx, refine, depth=0, at=None):
         base = tr
         if k == "local" and (e["name"], e.get("id")) in cx.lets and (e["name"], e.get("id")) not in cx.assigned:
             base = interval(cx.lets[(e["name"], e.get("id"))], cx, {}, depth + 1) or tr
+        elif k == "local" and (e["name"], e.get("id")) in cx.lets and tr is not None:
+            mr = cx.mutable_range((e["name"], e.get("id")), depth)
+            if mr is not None:
+                base = (max(tr[0], mr[0]), min(tr[1], mr[1]))
         if base is None:
             return r
         return (max(base[0], r[0]), min(base[1], r[1]))
@@ -342,6 +443,10 @@ def _interval(e, cx, refine, depth=0, at=None):
         if key in cx.lets and at is not None and cx.init_still_holds(key, at):
             init = cx.lets[key]
             return clip(interval(init, cx, refine, depth + 1, at=init if isinstance(init, dict) else at), tr)
+        if key in cx.lets and key in cx.assigned and tr is not None:
+            r_ = cx.mutable_range(key, depth)
+            if r_ is not None:
+                return clip(r_, tr)
         return tr
     if k == "un" and e.get("op") == "Deref":
         return clip(interval(e["e"], cx, refine, depth + 1, at), tr) if tr else interval(e["e"], cx, refine, depth + 1, at)
@@ -398,6 +503,9 @@ def _interval(e, cx, refine, depth=0, at=None):
             if n is not None:
                 return (n, n)
             return (0, 2 ** 63 - 1)
+        rr = cx.callee_result_range(e, depth) if tr is not None else None
+        if rr is not None:
+            return clip(rr, tr)
         return tr
     if k == "block" and "expr" in e and not e.get("stmts"):
         return interval(e["expr"], cx, refine, depth + 1, at)
